@@ -4,7 +4,8 @@ a data race or memory error.   Property theorems only (helpers: `Lemmas/Spsc.lea
 
 Scope (claimed *partial*): every theorem is about the sequentially consistent interleaving model
 (`RtcModel.Spsc`, `RtcModel.SpscTrack`): one step = one shared-memory access, any interleaving, any
-capacity, any number of operations, any word size `W = 2^k` (so index wrap-around is included). The
+capacity `cap` with `2·cap ≤ 2^k` (the range in which `capacity.next_power_of_two()` does not
+overflow), any number of operations, any word size `W = 2^k` (so index wrap-around is included). The
 C++11-style weak memory model (sufficiency of the Acquire/Release orderings) is NOT covered; the
 orderings are only pinned by the translator anchors. Sample values are atomic in the model: a torn
 slot access is inexpressible; what IS proved is that the two non-atomic accesses (slot write, slot
@@ -35,15 +36,15 @@ theorem const_obligations :
 /-- **ring_invariant**: for every capacity, every word size `2^k` and every interleaving of the
 individual accesses of one `push` sequence and one `pop` sequence (unbounded, across any number of
 index wrap-arounds), the ring invariant holds. -/
-theorem ring_invariant (cap k : Nat) (h0 : 0 < cap) (h1 : cap < 2 ^ k) (ls : List RLabel) :
+theorem ring_invariant (cap k : Nat) (h0 : 0 < cap) (h1 : 2 * cap ≤ 2 ^ k) (ls : List RLabel) :
     RingInv (rrun (RSys.init cap (2 ^ k)) ls).ring (rrun (RSys.init cap (2 ^ k)) ls).pu
       (rrun (RSys.init cap (2 ^ k)) ls).po :=
-  rrun_inv _ ls (RingInv.init cap k h0 h1)
+  rrun_inv _ ls (RingInv.init cap k h0 (by omega))
 
 /-- **ring_slot_safety** + FIFO: no access ever reads an uninitialised slot or overwrites an
 initialised one, and the values handed out by `pop` are exactly the first `hcount` values written
 by `push`, in order (nothing duplicated, reordered, invented or skipped). -/
-theorem ring_slot_safety (cap k : Nat) (h0 : 0 < cap) (h1 : cap < 2 ^ k) (ls : List RLabel) :
+theorem ring_slot_safety (cap k : Nat) (h0 : 0 < cap) (h1 : 2 * cap ≤ 2 ^ k) (ls : List RLabel) :
     let r := (rrun (RSys.init cap (2 ^ k)) ls).ring
     r.bad = [] ∧ r.outs = r.log.take r.hcount :=
   ⟨(ring_invariant cap k h0 h1 ls).noBad, (ring_invariant cap k h0 h1 ls).outsEq⟩
@@ -51,7 +52,7 @@ theorem ring_slot_safety (cap k : Nat) (h0 : 0 < cap) (h1 : cap < 2 ^ k) (ls : L
 /-- **ring_write_read_disjoint** ("no data race" inside the SC model): whenever the pusher is about
 to write its slot and the popper is about to read (move out of) its slot — the only two accesses of
 the real code that are not atomic — they address different slots. -/
-theorem ring_write_read_disjoint (cap k : Nat) (h0 : 0 < cap) (h1 : cap < 2 ^ k) (ls : List RLabel)
+theorem ring_write_read_disjoint (cap k : Nat) (h0 : 0 < cap) (h1 : 2 * cap ≤ 2 ^ k) (ls : List RLabel)
     (tl hl : Nat) (v : Val)
     (hp : (rrun (RSys.init cap (2 ^ k)) ls).pu = some (.write tl, v))
     (hq : (rrun (RSys.init cap (2 ^ k)) ls).po = some (.read hl)) :
@@ -63,7 +64,7 @@ theorem ring_write_read_disjoint (cap k : Nat) (h0 : 0 < cap) (h1 : cap < 2 ^ k)
 /-- **ring_drop_drains**: whenever nobody is inside `push`/`pop` (which `&mut self` of `Drop`
 guarantees), `Drop for SpscRing` drops exactly the values still queued — each once, oldest first —
 never touches an uninitialised slot and leaves no slot of the buffer initialised. -/
-theorem ring_drop_drains (cap k : Nat) (h0 : 0 < cap) (h1 : cap < 2 ^ k) (ls : List RLabel)
+theorem ring_drop_drains (cap k : Nat) (h0 : 0 < cap) (h1 : 2 * cap ≤ 2 ^ k) (ls : List RLabel)
     (hq : (rrun (RSys.init cap (2 ^ k)) ls).pu = none ∧ (rrun (RSys.init cap (2 ^ k)) ls).po = none) :
     let r := (rrun (RSys.init cap (2 ^ k)) ls).ring
     r.drop.2 = r.log.drop r.hcount ∧ r.drop.1.bad = [] ∧ ∀ i, i < r.mask + 1 → r.drop.1.slots i = none := by
@@ -105,15 +106,15 @@ number of producer threads (each label names a producer index; handles are creat
 dropped by `dropSrc` at arbitrary points; operations `send`, `send_many`, `try_send`), the consumer's
 `recv` and `stop()`, for every capacity: the lock discipline holds (at most one thread is inside
 `push`, at most one inside `pop`) and the ring invariant holds for the two lock holders. -/
-theorem track_invariant (cap k : Nat) (h0 : 0 < cap) (h1 : cap < 2 ^ k) (ls : List Label) :
+theorem track_invariant (cap k : Nat) (h0 : 0 < cap) (h1 : 2 * cap ≤ 2 ^ k) (ls : List Label) :
     TInv (run (init cap k) ls) :=
-  run_TInv _ ls (TInv.init cap k h0 h1)
+  run_TInv _ ls (TInv.init cap k h0 (by omega))
 
 /-- **multi_producer_safe** (which contains **slot_safety** for one producer): for every number of
 producers, every capacity and every schedule, no access ever reads an uninitialised slot or
 overwrites an initialised one, and the values handed out by `pop` (to the consumer or to a
 drop-oldest producer) are exactly the first `hcount` values written, in order. -/
-theorem multi_producer_safe (cap k : Nat) (h0 : 0 < cap) (h1 : cap < 2 ^ k) (ls : List Label) :
+theorem multi_producer_safe (cap k : Nat) (h0 : 0 < cap) (h1 : 2 * cap ≤ 2 ^ k) (ls : List Label) :
     (run (init cap k) ls).ring.bad = [] ∧
     (run (init cap k) ls).ring.outs = (run (init cap k) ls).ring.log.take (run (init cap k) ls).ring.hcount :=
   ⟨(track_invariant cap k h0 h1 ls).ring.noBad, (track_invariant cap k h0 h1 ls).ring.outsEq⟩
@@ -139,7 +140,7 @@ theorem mutual_exclusion (cap k : Nat) (ls : List Label) (i j : Nat) :
 about to write a slot (`MaybeUninit::write`), nobody else is about to write one, and whoever is about
 to read a slot (`assume_init_read`: the consumer, or — vacuously — a drop-oldest producer) addresses
 a different slot. -/
-theorem no_slot_race (cap k : Nat) (h0 : 0 < cap) (h1 : cap < 2 ^ k) (ls : List Label)
+theorem no_slot_race (cap k : Nat) (h0 : 0 < cap) (h1 : 2 * cap ≤ 2 ^ k) (ls : List Label)
     (i tl v : Nat) (c : Ctx) (rest : List Nat)
     (hw : (run (init cap k) ls).pp i = .push c v rest (.write tl)) :
     (∀ j c' v' rest' tl', (run (init cap k) ls).pp j = .push c' v' rest' (.write tl') → j = i) ∧
@@ -150,7 +151,7 @@ theorem no_slot_race (cap k : Nat) (h0 : 0 < cap) (h1 : cap < 2 ^ k) (ls : List 
 
 /-- **slot_safety_drop**: whenever no thread is inside `push`/`pop` (in particular when the last
 `Arc` of the ring is released), `Drop for SpscRing` drops exactly the queued samples, each once. -/
-theorem slot_safety_drop (cap k : Nat) (h0 : 0 < cap) (h1 : cap < 2 ^ k) (ls : List Label)
+theorem slot_safety_drop (cap k : Nat) (h0 : 0 < cap) (h1 : 2 * cap ≤ 2 ^ k) (ls : List Label)
     (hq : (run (init cap k) ls).plock = none ∧ (run (init cap k) ls).poplock = none) :
     let r := (run (init cap k) ls).ring
     r.drop.2 = r.log.drop r.hcount ∧ r.drop.1.bad = [] ∧ ∀ i, i < r.mask + 1 → r.drop.1.slots i = none := by
@@ -164,7 +165,7 @@ theorem slot_safety_drop (cap k : Nat) (h0 : 0 < cap) (h1 : cap < 2 ^ k) (ls : L
 of the pushed values `log`) are an *interleaving* of what `recv` returned (`recvd`) and what the
 drop-oldest path of `send` discarded (`droppedOld`): each popped sample went to exactly one of the
 two, nothing popped vanished, nothing was delivered that was not popped, orders kept. -/
-theorem conservation (cap k : Nat) (h0 : 0 < cap) (h1 : cap < 2 ^ k) (ls : List Label) :
+theorem conservation (cap k : Nat) (h0 : 0 < cap) (h1 : 2 * cap ≤ 2 ^ k) (ls : List Label) :
     let s := run (init cap k) ls
     Interleave s.recvd s.droppedOld (s.ring.log.take s.ring.hcount) := by
   intro s
@@ -180,7 +181,7 @@ For every number of producers, capacity and schedule, with overflow (drop-oldest
 `try_send`), `stop()` and source drops anywhere: the received samples are a *subsequence* of the
 pushed ones — every received sample is one pushed sample (same tag and payload), none is received
 twice, and the samples of each producer arrive in the order that producer pushed them. -/
-theorem no_dup_no_reorder (cap k : Nat) (h0 : 0 < cap) (h1 : cap < 2 ^ k) (ls : List Label) :
+theorem no_dup_no_reorder (cap k : Nat) (h0 : 0 < cap) (h1 : 2 * cap ≤ 2 ^ k) (ls : List Label) :
     let s := run (init cap k) ls
     List.Sublist s.recvd s.ring.log ∧
     ∀ i : Nat, List.Sublist (s.recvd.filter (fun x => x.1 == i)) (s.ring.log.filter (fun x => x.1 == i)) := by
@@ -194,12 +195,12 @@ dropped (`closed`), every sample ever pushed has been popped, and the pushed sam
 interleaving of the received ones and the ones discarded by drop-oldest overflow: every sample that
 was still queued when the source closed has been *delivered* (after the close no producer exists that
 could discard anything). -/
-theorem eos_only_when_drained (cap k : Nat) (h0 : 0 < cap) (h1 : cap < 2 ^ k) (ls : List Label) :
+theorem eos_only_when_drained (cap k : Nat) (h0 : 0 < cap) (h1 : 2 * cap ≤ 2 ^ k) (ls : List Label) :
     let s := run (init cap k) ls
     s.stopCalled = false → (CRes.eos ∈ s.cres ∨ s.ended = true) →
       s.closed = true ∧ s.ring.hcount = s.ring.tcount ∧ Interleave s.recvd s.droppedOld s.ring.log := by
   intro s hs he
-  have hF : FInv s := run_FInv _ ls (FInv.init cap k h0 h1)
+  have hF : FInv s := run_FInv _ ls (FInv.init cap k h0 (by omega))
   have hd : Drained s := by
     cases he with
     | inl h => exact (hF.e.eos h).resolve_left (by simp [hs])
@@ -219,6 +220,15 @@ theorem eos_only_when_drained (cap k : Nat) (h0 : 0 < cap) (h1 : cap < 2 ^ k) (l
   have hc := conservation cap k h0 h1 ls
   have e : s.ring.log.take s.ring.hcount = s.ring.log := by rw [hd.2, ← hlen, List.take_length]
   rw [← e]; exact hc
+
+/-- **no_discard_after_close**: in every reachable state in which the source is closed, no step of any
+thread discards a sample (`droppedOld` is frozen): together with `eos_only_when_drained` — at
+end-of-stream the pushed samples are an interleaving of the received and the discarded ones — every
+sample that was queued when the source closed has been delivered by `recv`. -/
+theorem no_discard_after_close (cap k : Nat) (ls : List Label) (l : Label)
+    (hc : (run (init cap k) ls).closed = true) :
+    (step (run (init cap k) ls) l).droppedOld = (run (init cap k) ls).droppedOld :=
+  no_discard_after_close_of_inv _ (run_induct LInv step_LInv _ ls (LInv.init cap (2 ^ k))) hc l
 
 /-- **no_lost_wakeup_after_close** (drain_then_eos, liveness ingredient): in every
 reachable state in which every source handle has been dropped and the closing thread has finished
